@@ -197,6 +197,26 @@ CLAIMED = {
              "observed under ASan, the theorems are about the bounded-array model.",
         technique="Lean 4 proofs (bounded reply builder, filter characterisation by induction, case analysis) + differential correspondence on live sockets",
         ref="DESIGN.md §5 C14"),
+    "C13": dict(
+        text="Lean 4 proofs on a model of tconnect.c (tracks, per-family descriptor reuse, bind-once, timers, the three "
+             "algorithms) whose environment is an adversarial script, so every timing and every per-address behaviour is "
+             "covered: an invariant `Good` holds of every track that tconnect_connect creates and any number of polls leaves "
+             "(reachable_good, induction over polls and over the recursion of track_connect_next); from it: a connected track is "
+             "connected to the first address whose attempt succeeded, every earlier usable address was attempted and failed "
+             "(C13_sequential_first_accepting); a failed track reports the errno of its last failed attempt, ENOENT when nothing "
+             "could be attempted, and only after all usable addresses failed (C13_errno_of_last_failure); a timer expiry is "
+             "ETIMEDOUT (C13_timeout_is_etimedout); `single` attempts only address 0 (C13_single_first_only); a waiting track is "
+             "always registered for EPOLLOUT with its timer armed (C13_waiting_is_watched); the synchronous resolution loop stops "
+             "at the first non-EAGAIN answer with its errno (C13_resolve_sync_terminates). Tie: unit_tconnect (real tconnect.c, "
+             "scripted kernel/timers, kernel-faithful bind, dead-stack local address under ASan) vs the model incl. the trace of "
+             "environment calls; sys_dns: the whole library against a scripted DNS responder and accepting/refusing/ignoring "
+             "loopback listeners, checked against the property's oracle (address, errno, local address, elapsed time).",
+        note="Found and fixed here: F-13a (resolve_sync never ended on failure), F-13b (dangling local address), F-13c (re-bind). "
+             "Not proved: the Happy Eyeballs statement at tconnect level ('connects whenever some address of either family "
+             "accepts') is covered per track by the theorems and end-to-end by sys_dns only; time bounds are observed, not "
+             "proved; c-ares' ordering of mixed A/AAAA answers is not modelled. K-connect is an assumption.",
+        technique="Lean 4 invariant proof over unbounded poll sequences and address lists + differential correspondence (unit) + live-socket oracle runs",
+        ref="DESIGN.md §5 C13"),
 }
 
 PENDING_REASON = "not yet built in this round: no check is claimed for it (the design in DESIGN.md §5 stands; " \
